@@ -1,7 +1,9 @@
-// build: no-xen
 //! C03: histories of Bytes<GuestAddress> operations (write/read/slices/objects/atomics/in-memory
 //! streams) on GuestMemoryMmap and on MockMem (see c02.rs); after every step ALL region contents
 //! are re-read through the raw host pointers.
+//! Compiled in the standard and in the Xen build.  In the Xen build the regions of kinds 0 and 2 are Xen-UNIX
+//! regions made by GuestRegionMmap::from_range(addr, len, file) (c02.rs `region`), kind 2 over a memfd whose
+//! contents are re-read with pread after every step; a reduced number of histories, kinds 0 and 2 only.
 //! case:  kind(0 anonymous mmap, 1 MockMem, 2 file-backed mmap) mode [starts] [lens] [initial bytes]
 //!        then per op:  opcode addr count [data]   (opcodes 12/13: data = chunk :: source bytes)
 //! obs :  per op:  k(1 Ok, 2 Err, 3 panic, 9 backing file differs from memory) v(count | error class) e1 e2 [data] [all region bytes]
@@ -31,7 +33,17 @@ impl ReadVolatile for ChunkedSrc {
     }
 }
 
+#[cfg(not(feature = "xen"))]
 pub const SUITES: &[Suite] = &[Suite { name: "C03", gen, exec }];
+// c03walk.rs uses constructors that the Xen build does not have: an empty stand-in keeps `./check C03` uniform
+#[cfg(feature = "xen")]
+pub const SUITES: &[Suite] = &[Suite { name: "C03", gen, exec }, Suite { name: "C03walk", gen: nogen, exec: noexec }];
+#[cfg(feature = "xen")]
+fn nogen(_: &mut Rng, _: Tier, _: &mut dyn FnMut(Vec<Tok>)) {}
+#[cfg(feature = "xen")]
+fn noexec(_: &[Tok]) -> Vec<Tok> {
+    vec![Tok::N(0xbad0bad)]
+}
 
 struct Ob {
     k: u64,
@@ -230,10 +242,16 @@ fn exec(case: &[Tok]) -> Vec<Tok> {
 // ------------------------------------------------------------------------------------------
 fn gen(rng: &mut Rng, tier: Tier, emit: &mut dyn FnMut(Vec<Tok>)) {
     let u = universe();
-    let nhist = if tier == Tier::Quick { 3000 } else { 60000 };
+    let xen = cfg!(feature = "xen");
+    let nhist = match (tier == Tier::Quick, xen) {
+        (true, false) => 3000,
+        (true, true) => 2000,
+        (false, false) => 60000,
+        (false, true) => 20000,
+    };
     for h in 0..nhist {
-        // anonymous mmap / MockMem / file-backed mmap / MockMem
-        let kind = [0u64, 1, 2, 1][(h % 4) as usize];
+        // anonymous mmap / MockMem / file-backed mmap / MockMem; Xen build: file-backed and anonymous Xen-UNIX regions
+        let kind = if xen { [2u64, 0, 2, 2][(h % 4) as usize] } else { [0u64, 1, 2, 1][(h % 4) as usize] };
         let lay = small_layout(rng, if kind == 2 { 0 } else { kind }, if h % 8 < 2 { 4 } else { 9 }, 4);
         let total: u64 = lay.iter().map(|x| x.1).sum();
         let mut case = lay_toks(kind, &lay);
